@@ -1203,6 +1203,26 @@ func (c *fnCtx) stmt(s ast.Stmt, nn set) set {
 		if x.Init != nil {
 			nn = c.stmt(x.Init, nn)
 		}
+		if x.Tag == nil {
+			// a tagless switch is an if / else-if chain: the expressions of a case are tried in order (a || b || …), a case is
+			// reached only when every earlier one was false
+			reach := nn.clone()
+			for _, cl := range x.Body.List {
+				cc := cl.(*ast.CaseClause)
+				in := reach.clone()
+				if len(cc.List) > 0 {
+					var cond ast.Expr = cc.List[0]
+					for _, e := range cc.List[1:] {
+						cond = &ast.BinaryExpr{X: cond, Op: token.LOR, Y: e}
+					}
+					c.expr(cond, reach)
+					in = reach.clone().addAll(c.nnT(cond))
+					reach = reach.clone().addAll(c.nnF(cond))
+				}
+				c.block(cc.Body, in)
+			}
+			return nn
+		}
 		c.expr(x.Tag, nn)
 		for _, cl := range x.Body.List {
 			cc := cl.(*ast.CaseClause)
@@ -1263,6 +1283,38 @@ func (c *fnCtx) nnTrueOfFunc() set {
 				}
 			}
 			return set{} // a shape not understood
+		case *ast.SwitchStmt:
+			// `switch { case c1, c2: return false … default: return true }` is `if c1 || c2 { return false }; …; return true`
+			if x.Tag != nil || x.Init != nil {
+				return set{}
+			}
+			var dflt *ast.CaseClause
+			for _, cl := range x.Body.List {
+				cc := cl.(*ast.CaseClause)
+				if len(cc.Body) != 1 {
+					return set{}
+				}
+				r, ok := cc.Body[0].(*ast.ReturnStmt)
+				if !ok || len(r.Results) != 1 {
+					return set{}
+				}
+				if len(cc.List) == 0 {
+					dflt = cc
+					continue
+				}
+				id, ok := r.Results[0].(*ast.Ident)
+				if !ok || id.Name != "false" || dflt != nil {
+					return set{} // a default before the last case, or a case that does not reject: not understood
+				}
+				var cond ast.Expr = cc.List[0]
+				for _, e := range cc.List[1:] {
+					cond = &ast.BinaryExpr{X: cond, Op: token.LOR, Y: e}
+				}
+				facts.addAll(c.nnF(cond))
+			}
+			if dflt != nil {
+				out = facts.clone().addAll(c.nnT(dflt.Body[0].(*ast.ReturnStmt).Results[0]))
+			}
 		case *ast.ReturnStmt:
 			if len(x.Results) != 1 {
 				return set{}
